@@ -497,6 +497,41 @@ func (ex *Exec) atReturn(fr *Frame, c *Contract, st *State, res Value) {
 	for _, e := range c.Ensures {
 		ex.oblige(st, "ensures", e.Label, e.Props, env.boolTerm(e.Expr), fr.fn.Pos(), ex.fnKey)
 	}
+	if c.Refines != "" {
+		// behavioural subtyping: the method satisfies the interface-level contract
+		if ic := ex.specs.Contracts[c.Refines]; ic != nil {
+			renv := &Env{ex: ex, cur: st, old: ex.entry, live: st, vars: map[string]Value{}, pkg: env.pkg}
+			for i, p := range ic.Params {
+				if i >= len(fr.args) {
+					break
+				}
+				a := fr.args[i]
+				if i == 0 {
+					a = ex.makeInterface(st, a, fr.fn.Params[0].Type(), anyType)
+				}
+				renv.vars[p] = a
+			}
+			names := ic.Results
+			if tup, ok := resT.(*types.Tuple); ok {
+				off := 0
+				for i := 0; i < tup.Len(); i++ {
+					n := len(leavesOf(tup.At(i).Type()))
+					if i < len(names) {
+						renv.vars[names[i]] = Value{T: tup.At(i).Type(), L: res.L[off : off+n]}
+					}
+					off += n
+				}
+			} else if len(names) == 1 {
+				renv.vars[names[0]] = res
+			}
+			renv.vars["result"] = res
+			for _, e := range ic.Ensures {
+				ex.oblige(st, "refines@"+strings.TrimPrefix(c.Refines, "iface "), e.Label, mergeProps(e.Props, c.Props), renv.boolTerm(e.Expr), fr.fn.Pos(), ex.fnKey)
+			}
+		} else {
+			ex.unsupported["refines: no contract "+c.Refines] = true
+		}
+	}
 	if len(c.AtReturn) > 0 && fr.lastRet != nil {
 		lenv := ex.localEnv(fr, st, fr.lastRet)
 		lenv.old = ex.entry
